@@ -146,6 +146,10 @@ def spec_file_map(cfgs: dict[str, dict], stream: list[dict]) -> tuple[dict[str, 
         f = i["file"]
         cfg = dict(cfgs[f])
         cfg["dis"], cfg["en"] = set(i["dis"]), set(i["en"])
+        if not i.get("has_ign", True):
+            # reported before the file's ignore comments were registered (e.g. inline-configuration errors):
+            # add_error_info then skips the ignore / disabled-code test altogether (Model: has_ignores = false)
+            cfg["has_ignores"] = False
         a = spec_absorbed_at(cfg, i)
         if a is not None:
             used.setdefault(f, {}).setdefault(a, []).append((i["code"] or MISC)["name"])
@@ -250,6 +254,7 @@ class Recorder:
             self._verif_pending = pend
             dis = sorted(c.code for c in self.options.disabled_error_codes)
             en = sorted(c.code for c in self.options.enabled_error_codes)
+            has_ign = f in self.ignored_lines      # `if file in self.ignored_lines:` at the time of the report
             try:
                 orig_add(self, info, file=file)
             finally:
@@ -258,6 +263,7 @@ class Recorder:
                 rec.errors_obj = self
                 d = rec.snap_info(info, f)
                 d["dis"], d["en"] = dis, en
+                d["has_ign"] = has_ign
                 d["eobj"] = id(self)       # throw-away Errors objects (speculative analysis) are not the build's
                 rec.stream.append(d)
 
@@ -431,6 +437,19 @@ def expected_maps(run_cfg: dict, stream: list[dict], cfgs: dict[str, dict], sub_
     return {f: sorted(v, key=repr) for f, v in rep.items()}, {f: sorted(v, key=repr) for f, v in gen.items()}
 
 
+def disabled_leaks(run: dict) -> dict[str, list[tuple]]:
+    """Non-blocking infos whose code is disabled but which were reported before the file's ignored_lines entry existed,
+    so that add_error_info never consulted is_ignored_error: they are shown although their code is disabled."""
+    res: dict[str, list[tuple]] = {}
+    cfgs = cfgs_of(run)
+    for i in run["stream"]:
+        c = i["code"]
+        if (not i["blocker"] and c is not None and not code_enabled(c, set(i["dis"]), set(i["en"])) and not i.get("has_ign", True)
+                and not cfgs.get(i["file"], {}).get("ignore_all", False)):
+            res.setdefault(i["file"], []).append(canon(i))
+    return res
+
+
 def exit_oracle(run: dict) -> tuple[int, bool]:
     has_error = any(i["error"] and not i["hidden"] for infos in run["maps"].values() for i in infos)
     return (2 if run["blockers"] else (1 if has_error else 0)), has_error
@@ -584,6 +603,14 @@ def worker_case(rec: Recorder, job: dict, exit_obj: Any, sub_map: dict[str, list
                 return code_enabled(CODES[c[1]], set(g["dis"]), set(g["en"]))
             keepA = {f: [c for c in v if still_enabled(f, c)] for f, v in shown.items()}
             errB = {f: [c for c in v if c[2] == "error"] for f, v in repB.items()}
+            leaks = disabled_leaks(B)
+            if leaks:
+                res["problems"].append({"kind": "disabled-code-leak", "label": "disable " + x, "leaks": {f: v[:5] for f, v in leaks.items()},
+                                        "program": text[:1500], "files": {k: v[:600] for k, v in job["files"].items() if not k.endswith(".pyi")}})
+                for f, v in leaks.items():
+                    for c in v:
+                        if c in errB.get(f, []):
+                            errB[f].remove(c)
             keepA = {f: v for f, v in keepA.items() if v}
             errB = {f: v for f, v in errB.items() if v}
             if A["blockers"] == B["blockers"] and keepA != errB:
@@ -1113,6 +1140,11 @@ def stage_S(ctx: Any, verdict: str) -> None:
                     f1_seen = f1_seen or {"program": r["name"], **p}
                 else:
                     ctx.violation(f"exit-status:{r['name']}:{p['label']}", f"exit status {p['exit']} but messages imply {p['expected']}", {"case": r["name"], **p})
+            elif p["kind"] == "disabled-code-leak":
+                ctx.violation("disabled-code-still-reported:error-reported-before-file-ignores-registered",
+                              "--disable-error-code X does not remove an [X] diagnostic that is reported before the file's ignore "
+                              "comments are registered (e.g. inline `# mypy:` configuration errors): add_error_info only consults "
+                              "is_ignored_error `if file in self.ignored_lines`", {"case": r["name"], **p})
             elif p["kind"] == "crash":
                 ctx.log(f"note: mypy raised on a variant of {r['name']} ({p['label']}): {p['exc'][:120]} (not this property)")
             else:
